@@ -5,6 +5,7 @@ CONSTANTS Operands <- OperandsE
  LongOperands <- OperandsB
  LongOps <- OpsLongQ
  LongPres <- PresNone
+ ChainPairwise = FALSE
  RightTakesRest = FALSE
  GoRemainder = FALSE
  Emit = TRUE
